@@ -27,7 +27,7 @@ def regen():
         tmp_json = os.path.join(OUT_DIR, "facts.json.%d" % os.getpid())
         p = subprocess.run([binary, "repo=" + REPO, "lean=" + tmp_lean, "json=" + tmp_json],
                            cwd=REPO, env=GOENV, capture_output=True, text=True, timeout=600)
-        if p.returncode != 0:
+        if p.returncode not in (0, 3):
             for f in (tmp_lean, tmp_json):
                 if os.path.exists(f):
                     os.remove(f)
@@ -40,6 +40,10 @@ def regen():
         else:
             os.remove(tmp_lean)
         os.replace(tmp_json, OUT_JSON)
+        if p.returncode == 3:
+            # a decoder site or an As…() function has a shape the extractor does not understand:
+            # tables are emitted with that fact in its pessimistic form (the Lean obligation fails)
+            return False, (p.stderr or p.stdout)[-2000:].strip()
         return True, p.stdout.strip()
 
 
